@@ -81,7 +81,7 @@ func one(t *tape.Tape) (int, string) {
 	for i := range plans {
 		for k := 0; k < 2+t.Draw(fmt.Sprintf("n%d", i), 6); k++ {
 			l := fmt.Sprintf("t%d.%d", i, k)
-			o := op{kind: t.Draw(l+".k", 9), x: t.Draw(l+".x", 2), ref: all[t.Draw(l+".r", len(all))]}
+			o := op{kind: t.Draw(l+".k", 10), x: t.Draw(l+".x", 2), ref: all[t.Draw(l+".r", len(all))]}
 			o.seed = t.Draw(l+".seed", 100)
 			if o.kind == 5 {
 				o.ref = d.Streams[t.Draw(l+".s", len(d.Streams))]
@@ -196,6 +196,22 @@ func one(t *tape.Tape) (int, string) {
 					}
 					if err != nil || !bytes.Equal(data, body) {
 						note(fmt.Sprintf("independent reader, stream without /Length: %d bytes instead of %d (err %v)", len(data), len(body), err))
+					}
+				case 9:
+					// independent Reader, object nested too deeply: Get fails;
+					// the error must be this caller's own value
+					img, refs := c18doc.DeepFile(o.seed)
+					r2, err := pdf.NewReader(bytes.NewReader(img), int64(len(img)), nil)
+					if err != nil {
+						note("independent deep file: " + err.Error())
+						continue
+					}
+					for _, ref := range refs {
+						_, e1 := r2.Get(ref, true)
+						_, e2 := r2.Get(ref, true)
+						if e1 != nil && e2 != nil && e1.Error() != e2.Error() {
+							note("two failing Gets of the same object report different errors")
+						}
 					}
 				default:
 					cmap.Predefined("Identity-H")
